@@ -667,7 +667,11 @@ func judgeBuild(j *buildJob, res, base *buildResult, execs []execRec, haveExecs 
 	// (1) nothing but sh, the compiler and the assembler runs; no canary appears
 	var ran []string
 	for _, w := range res.Wrap {
-		ran = append(ran, "PATH wrapper ran: "+w.Tool+" "+strings.Join(w.Argv, " "))
+		var av []string
+		for _, a := range w.Argv {
+			av = append(av, tailStr(a, 60))
+		}
+		ran = append(ran, "PATH wrapper ran: "+w.Tool+" "+strings.Join(av, " "))
 	}
 	for _, p := range res.Canaries {
 		ran = append(ran, "file appeared: "+strings.Replace(p, s.Root, "<sandbox>", 1))
@@ -706,19 +710,7 @@ func judgeBuild(j *buildJob, res, base *buildResult, execs []execRec, haveExecs 
 				svcArgs = append(svcArgs, k)
 			}
 		}
-		if len(cfgArgs) != 1 {
-			add("build:config-define-count", "compiler received %d CONFIG_BYTES defines", len(cfgArgs))
-		} else if by, ok := parseConfigDefine(iv.Argv[cfgArgs[0]]); !ok {
-			add("build:config-define-syntax", "CONFIG_BYTES define is not a brace list of bytes: %.80s", iv.Argv[cfgArgs[0]])
-		} else {
-			build := 1
-			if j.Case.Format == builder.FILETYPE_WINDOWS_RAW_BINARY {
-				build = 2 // Build() has produced the block once itself before the inner DLL build does
-			}
-			if f := cfgCheck(j.Case, by, build); f != nil {
-				add("cfg", "%s %s: %s", f.Kind, f.Field, f.Detail)
-			}
-		}
+		before := len(vs)
 		wantSvc := j.Case.Format == builder.FILETYPE_WINDOWS_SERVICE_EXE && name != nil
 		switch {
 		case wantSvc && len(svcArgs) == 1 && serviceArgOK(iv.Argv[svcArgs[0]], *name):
@@ -731,6 +723,22 @@ func judgeBuild(j *buildJob, res, base *buildResult, execs []execRec, haveExecs 
 			add("shell:service-name-not-literal", "service name %q did not reach the compiler as one literal -DSERVICE_NAME=\"...\" argument; SERVICE_NAME arguments seen: %q", *name, got)
 		case len(svcArgs) > 0:
 			add("shell:service-name-not-literal", "SERVICE_NAME defined although the format is not a service executable / no name was given: %q", iv.Argv[svcArgs[0]])
+		}
+		if nv := len(vs); nv > before {
+			continue // the command line is already damaged by the name: the define is not judged
+		}
+		if len(cfgArgs) != 1 {
+			add("build:config-define-count", "compiler received %d CONFIG_BYTES defines", len(cfgArgs))
+		} else if by, ok := parseConfigDefine(iv.Argv[cfgArgs[0]]); !ok {
+			add("build:config-define-syntax", "CONFIG_BYTES define is not a brace list of bytes: %.80s", iv.Argv[cfgArgs[0]])
+		} else {
+			build := 1
+			if j.Case.Format == builder.FILETYPE_WINDOWS_RAW_BINARY {
+				build = 2 // Build() has produced the block once itself before the inner DLL build does
+			}
+			if f := cfgCheck(j.Case, by, build); f != nil {
+				add("cfg", "%s %s: %s", f.Kind, f.Field, f.Detail)
+			}
 		}
 	}
 	// (3) apart from the name, the command lines equal those of the plain-name twin
@@ -746,7 +754,13 @@ func judgeBuild(j *buildJob, res, base *buildResult, execs []execRec, haveExecs 
 		a, b := normInv(res.Inv, svcIdx), normInv(base.Inv, bIdx)
 		// a build refused before the compiler ran is fine; otherwise the tool
 		// invocations have to be the same
-		if !(len(res.Inv) == 0 && !res.Ok) && ncc > 0 && strings.Join(a, "\n") != strings.Join(b, "\n") {
+		already := false
+		for _, v := range vs {
+			if v.sig == "shell:service-name-not-literal" {
+				already = true
+			}
+		}
+		if !already && ncc > 0 && strings.Join(a, "\n") != strings.Join(b, "\n") {
 			d := ""
 			for i := 0; i < len(a) || i < len(b); i++ {
 				var x, y string
